@@ -194,7 +194,7 @@ theorem rdLoop_fin (cfg : Cfg) (env : Nat → Step) :
       · left; rfl
       · simp only [Result.cons_fin]
         apply ih
-        have := dispatch_rest_le cfg i h ((awaitNow aw (env i)).contains h.id) (env i).beh rest
+        have := dispatch_rest_le cfg i h (isAwaited (awaitNow aw (env i)) h.typ h.id) (env i).beh rest
         omega
 
 theorem rdLoop_allocs (cfg : Cfg) (env : Nat → Step) :
@@ -211,7 +211,7 @@ theorem rdLoop_allocs (cfg : Cfg) (env : Nat → Step) :
     · simp at ha; omega
     · simp at ha; omega
     · rename_i h rest e
-      have hd := dispatch_allocs cfg i h ((awaitNow aw (env i)).contains h.id) (env i).beh rest
+      have hd := dispatch_allocs cfg i h (isAwaited (awaitNow aw (env i)) h.typ h.id) (env i).beh rest
       simp only [dispatch_crashed, Bool.false_eq_true, if_false] at ha
       split at ha
       · rw [Result.cons_allocs] at ha
@@ -240,7 +240,7 @@ theorem rdLoop_callerOK (cfg : Cfg) (env : Nat → Step) :
     · simp at hd
     · simp at hd
     · rename_i h rest e
-      have hc := dispatch_callerOK cfg i h ((awaitNow aw (env i)).contains h.id) (env i).beh rest
+      have hc := dispatch_callerOK cfg i h (isAwaited (awaitNow aw (env i)) h.typ h.id) (env i).beh rest
       simp only [dispatch_crashed, Bool.false_eq_true, if_false] at hd
       split at hd
       · rw [Result.cons_deliveries] at hd
